@@ -158,3 +158,38 @@ Section Order.
       apply in_or_app. left. exact IH.
   Qed.
 End Order.
+
+(* ------------------------------------------------------------------ the oracle's acyclicity
+   test yields the rank hypothesis *)
+Lemma acyclicb_rank : forall ds nodes,
+  acyclicb ds nodes = true ->
+  (forall id, has_history ds id = true -> In id nodes) ->
+  forall x m, has_history ds x = true -> In m (members_of ds x) -> has_history ds m = true ->
+    (rank_of ds nodes m < rank_of ds nodes x)%nat.
+Proof.
+  intros ds nodes H Hall x m Hx Hm Hh. unfold acyclicb in H. rewrite forallb_forall in H.
+  specialize (H x (Hall x Hx)). rewrite Hx in H. cbn [negb orb] in H.
+  rewrite forallb_forall in H. specialize (H m Hm). rewrite Hh in H. cbn [negb orb] in H.
+  apply Nat.ltb_lt. exact H.
+Qed.
+
+Theorem order_children_first_acyclicb : forall ds nodes,
+  acyclicb ds nodes = true ->
+  (forall id, has_history ds id = true -> In id nodes) ->
+  forall fuel ids s out, order ds fuel ids = (s, out) ->
+  forall r y, reach ds r y -> has_history ds y = true ->
+  forall l1 l2, out = l1 ++ r :: l2 -> In y l1.
+Proof.
+  intros ds nodes H Hall. exact (order_children_first ds (rank_of ds nodes) (acyclicb_rank ds nodes H Hall)).
+Qed.
+
+(* conversely a cycle is rejected: on an acyclic verdict nobody reaches itself *)
+Lemma acyclicb_no_cycle : forall ds nodes,
+  acyclicb ds nodes = true ->
+  (forall id, has_history ds id = true -> In id nodes) ->
+  forall x y, reach ds x y -> has_history ds y = true -> (rank_of ds nodes y < rank_of ds nodes x)%nat.
+Proof.
+  intros ds nodes H Hall x y Hr. induction Hr as [x m Hx Hm|x m y Hx Hm Hhm Hr IH]; intros Hy.
+  - exact (acyclicb_rank ds nodes H Hall x m Hx Hm Hy).
+  - pose proof (acyclicb_rank ds nodes H Hall x m Hx Hm Hhm). specialize (IH Hy). lia.
+Qed.
